@@ -330,6 +330,39 @@ fn o_block(b: &TypeBlock, st: &mut Stats) -> Result<(), String> {
     }
 }
 
+/// Sub-slices of the very `&'static str` that `name()` returns (an input that aliases the library's own
+/// data), and every name followed by a run of 0..=1100 and 65 500..=65 600 characters.
+fn o_views(_: &String, st: &mut Stats) -> Result<(), String> {
+    for t in [PackageType::Cargo, PackageType::Gem, PackageType::Golang, PackageType::Maven, PackageType::Npm, PackageType::NuGet, PackageType::PyPI] {
+        let name: &'static str = t.name();
+        let views: [&'static str; 2] = [name, t.into()];
+        for v in views {
+            for i in 0..=v.len() {
+                for j in i..=v.len() {
+                    o_lean(&v[i..j].to_string(), st).map_err(|m| format!("(a copy of a sub-slice of the static name) {m}"))?;
+                    // the slice itself, not a copy of it
+                    match PackageType::from_str(&v[i..j]) {
+                        Ok(got) if got.name().eq_ignore_ascii_case(&v[i..j]) => {},
+                        Ok(got) => return Err(format!("the sub-slice {:?} of the static string returned by name() is taken for the package type {:?}", &v[i..j], got.name())),
+                        Err(_) if &v[i..j] == name => return Err(format!("the static string {name:?} itself does not parse")),
+                        Err(_) => {},
+                    }
+                }
+            }
+        }
+        for n in (0..=1100usize).chain(65_500..=65_600) {
+            for fill in ['a', 'A', '-'] {
+                let s = format!("{name}{}", fill.to_string().repeat(n));
+                o_lean(&s, st)?;
+                let s = format!("{}{}", name.to_ascii_uppercase(), fill.to_string().repeat(n));
+                o_lean(&s, st)?;
+            }
+        }
+    }
+    st.class("views-and-runs");
+    Ok(())
+}
+
 pub fn sections() -> Vec<Box<dyn Section>> {
     vec![
         Box::new(Enumerated {
@@ -357,6 +390,11 @@ pub fn sections() -> Vec<Box<dyn Section>> {
             oracle: o_block,
             required: vec!["block", "parses"],
             complete: true,
+        }),
+        Box::new(Listed {
+            name: "views-into-the-static-names-and-names-followed-by-runs".into(),
+            cases: Box::new(|_| vec![String::new()]),
+            oracle: o_views,
         }),
         Box::new(Listed {
             name: "seven-variants-all-case-variants".into(),
